@@ -281,7 +281,9 @@ func VerifC12Conn() {
 	}
 	d := &verifCapDisp{}
 	l := NewListener("verif:2003", to, NewPlain(d))
+	verifStepLimit(200000)
 	l.HandleConn(l, NewTimeoutConn(c, l.readTimeout))
+	verifAssert(r.afterEnd == 0, "no-read-after-terminating-error")
 	if !c.failed {
 		verifAssert(r.pos == L, "handler-reads-stream-to-its-end")
 	}
@@ -497,5 +499,55 @@ func VerifC12UDPLoop() {
 		}
 	}
 	verifCheckLines(all, d.copies)
+	verifCover("end")
+}
+
+// verifStallConn: a sender that stalls in mid-stream: the bytes before the stall arrive (in one solver-chosen
+// cut), then the read deadline expires (a timeout error that reports Temporary() == true, as *net.OpError
+// does), and the rest of the stream would arrive if anybody read the connection again.
+type verifStallConn struct {
+	verifStubConn
+	before, after []byte
+	pos           int
+	stalled       bool
+	readsAfterErr int
+	gotAfter      int
+}
+
+func (c *verifStallConn) Read(p []byte) (int, error) {
+	if c.stalled {
+		c.readsAfterErr++
+		if c.gotAfter < len(c.after) {
+			k := copy(p, c.after[c.gotAfter:])
+			c.gotAfter += k
+			return k, nil
+		}
+		return 0, io.EOF
+	}
+	if c.pos == len(c.before) {
+		c.stalled = true
+		return 0, verifErrTimeout
+	}
+	k := copy(p, c.before[c.pos:])
+	c.pos += k
+	return k, nil
+}
+
+// VerifC12StalledSender: the TCP path as acceptTcpConn drives it, with a read timeout, against a sender that
+// stalls anywhere in the stream (also in the middle of a line). A read error ends the connection: what was
+// received before it is processed as the lines of that prefix, and the connection is not read again (reading
+// on would frame the rest of a cut line as a line of its own).
+func VerifC12StalledSender() {
+	maxL := verifDigit("L", 4)
+	L := verifChoice("L", maxL+1)
+	stream := verifBytes("s", L)
+	cut := verifChoice("stall-at", L+1)
+	c := &verifStallConn{before: stream[:cut], after: stream[cut:]}
+	d := &verifCapDisp{}
+	l := NewListener("verif:2003", 2*time.Minute, NewPlain(d))
+	verifStepLimit(200000)
+	l.HandleConn(l, NewTimeoutConn(c, l.readTimeout))
+	verifAssert(c.readsAfterErr == 0, "connection-not-read-again-after-a-read-error")
+	verifCheckLines(stream[:cut], d.copies)
 	verifCover("end")
 }
